@@ -18,7 +18,7 @@ RULE = ('transform_sequence: KData loaded from a real ISMRMRD file written per c
         'other in 1..3 via one of the six labels, k2 1..3, k1 2..6, k0 = encoding x in {4,6}, recon x in {same, half, odd}; dense stored, '
         'Cartesian-broadcast or partially broadcast user trajectories) followed by 1-5 random operations out of split_k1/k2_into_other '
         '(split_idx blocks with overlap / cyclic, or arbitrary 2-D indices), select_other_subset (with repetitions), rearrange_k2_k1_into_k1, '
-        'remove_readout_os, clone, and compress_coils / prewhiten_kspace as last step, plus invalid arguments; final id arrays of data, '
+        'remove_readout_os, clone, and compress_coils / prewhiten_kspace as last step, plus invalid arguments; final id arrays of data, per-readout orientation (rotation matrices of mixed right- and left-handed read/phase/slice frames), '
         'broadcast trajectory, scan_counter, the six labels, center_sample, limits and a deep snapshot of the source compared exactly with '
         'Model/KTransform.v under vm_compute. Non-trivial = at least one operation that moves samples; distinct by case hash.')
 TRUSTED_BASE = ['translator harness/translate/ktransform.py (ast -> Gallina for crop window, select index, split / rearrange index maps; the rest pinned textually; fail-closed)',
@@ -79,7 +79,7 @@ def make_case(rng, malformed=False):
     n_other = rng.choice([1, 1, 1, 2, 3])
     olabel = rng.choice(LABELS6)
     ovals = sorted(rng.sample(range(0, 5), n_other))
-    n2 = rng.choice([1, 1, 2, 3])
+    n2 = rng.choice([1, 2, 2, 3])
     n1 = rng.randint(2, 6)
     n0 = rng.choice([4, 6])
     recon = rng.choice([n0, n0 // 2, n0 // 2, 3 if rng.random() < 0.5 else n0 // 2])
@@ -242,6 +242,24 @@ def snap_diff(a, b):
     return bad
 
 
+_FRAMES = {}
+
+
+def frame_index(mat):
+    """index of the writer's read/phase/slice frame (6 and 7 are left-handed) whose rotation matrix this is, -1 if none"""
+    if not _FRAMES:
+        from mrpro.data import Rotation, SpatialDimension
+        for f, (rd, ph, sl) in enumerate(W.FRAMES):
+            def sd(v):
+                return SpatialDimension(x=torch.tensor(float(v[0])), y=torch.tensor(float(v[1])), z=torch.tensor(float(v[2])))
+            m = Rotation.from_directions(sd(sl), sd(ph), sd(rd)).as_matrix()
+            _FRAMES[tuple(int(round(float(x))) for x in m.flatten().tolist())] = f
+    return _FRAMES.get(tuple(int(round(float(x))) for x in mat.flatten().tolist()), -1)
+
+
+INFO_NAMES = ('scan_counter',) + tuple('idx.' + l for l in ('average', 'slice', 'contrast', 'phase', 'repetition', 'set')) + ('center_sample', 'orientation')
+
+
 def arrays(kd, scale=1.0, opaque=False):
     """id arrays of a KData (see Model/KTransform.v)"""
     d = kd.data
@@ -270,6 +288,10 @@ def arrays(kd, scale=1.0, opaque=False):
         if t.ndim == 4 and t.shape[-1] == 1:
             t = t[..., 0]
         inf.append([list(t.shape), [int(round(float(v))) for v in t.flatten().tolist()]])
+    om = info.orientation.as_matrix()           # (other, k2, k1, 1, 3, 3): rotation matrices incl. the reflection of improper ones
+    om = om.reshape(*om.shape[:3], -1, 3, 3)[..., 0, :, :]
+    osh = list(om.shape[:3])
+    inf.append([osh, [frame_index(m) for m in om.reshape(-1, 3, 3)]])
     out['info'] = inf
     lim = kd.header.encoding_limits
     out['lims'] = [getattr(lim, l).length for l in LABELS6]
@@ -395,7 +417,7 @@ def cmp_seq(c, o, m):
                 return f'trajectory component {mm}: model {traj[mm][:12]}... impl {f["traj"][mm][:12]}...'
     for r, ((ms, md), (is_, id_)) in enumerate(zip(info, f['info'])):
         if ms != is_ or md != id_:
-            name = (('scan_counter',) + LABELS6 + ('center_sample',))[r]
+            name = INFO_NAMES[r]
             return f'acq_info {name}: model shape {ms} {md[:12]}..., impl shape {is_} {id_[:12]}...'
     if lims != f['lims'] or encx != f['encx'] or reconx != f['reconx']:
         return f'limits/matrix: model {lims, encx, reconx} impl {f["lims"], f["encx"], f["reconx"]}'
@@ -416,7 +438,7 @@ def oracle_seq(c, o):
         return f'trajectory shapes {f["traj_shapes"]} cannot be broadcast to the data shape {sh}'
     for r, (s, _) in enumerate(f['info']):
         if s != [sh[0], sh[2], sh[3]]:
-            name = (('scan_counter',) + LABELS6 + ('center_sample',))[r]
+            name = INFO_NAMES[r]
             return f'acq_info {name} has shape {s}, data has (other,k2,k1) = {[sh[0], sh[2], sh[3]]}'
     if f['nsamples'] != [sh[4]]:
         return f'number_of_samples {f["nsamples"]} but k0 = {sh[4]}'
@@ -440,11 +462,16 @@ def oracle_seq(c, o):
     dacq = np.array(f['data_acq']).reshape(sh)
     dre = np.array(f['data']).reshape(sh)
     sc = np.array(f['info'][0][1]).reshape(nO, n2, n1)
+    fo = np.array(f['info'][8][1]).reshape(nO, n2, n1)
+    src_frame = dict(zip(init['info'][0][1], init['info'][8][1]))
     ft = [np.array(t).reshape(nO, n2, n1, n0) for t in f['traj']]
     for o_ in range(nO):
         for a in range(n2):
             for b in range(n1):
                 acq = int(sc[o_, a, b])
+                if int(fo[o_, a, b]) != src_frame.get(acq):
+                    return (f'position (other,k2,k1)=({o_},{a},{b}) holds readout {acq}, whose orientation is frame {src_frame.get(acq)} '
+                            f'({"left" if src_frame.get(acq, 0) >= 6 else "right"}-handed read/phase/slice); the rotation matrix there is frame {int(fo[o_, a, b])}')
                 for cc in range(nC):
                     if not (dacq[o_, cc, a, b] == acq).all() or not (dre[o_, cc, a, b] == acq * 64 + cc * 16).all():
                         return (f'position (other,k2,k1)=({o_},{a},{b}) coil {cc}: data belong to readout {dacq[o_, cc, a, b].tolist()} / value '
